@@ -6,11 +6,11 @@ package main
 // lower-cased); the formula is then evaluated to a DFA over all of Unicode.
 
 import (
-	"os"
 	"fmt"
 	"go/constant"
 	"go/token"
 	"go/types"
+	"os"
 	"regexp"
 	"strings"
 	"unicode"
@@ -171,10 +171,10 @@ type Summarizer struct {
 	// ValueParams binds, while a helper is summarised for one call, its parameters that are not string terms
 	// (patterns, tables, structs) to the caller's values
 	ValueParams map[ssa.Value]ssa.Value
-	loopCache map[*ssa.Function][]*scanLoop
-	enumLoops map[*ssa.Function][]*enumLoop
-	loopOK    map[*ssa.Function]bool
-	Inexact   []string
+	loopCache   map[*ssa.Function][]*scanLoop
+	enumLoops   map[*ssa.Function][]*enumLoop
+	loopOK      map[*ssa.Function]bool
+	Inexact     []string
 	// InexactIn[i] is the function holding the value dropped in Inexact[i] (nil when not known).
 	InexactIn []*ssa.Function
 	// exits whose guards must be pairwise disjoint for exactness
